@@ -94,6 +94,22 @@ def build(tier):
     td3 = TypeDef("G", "struct", "named", [Field("A", "a"), Field("Option<B>", "b"), Field("Gp<C>", "c", ["#[ts(inline)]"])], generics=["A", "B", "C"], derives=TS_ONLY, vals=False)
     cover3 = [(ARGS[i % 9], ARGS[(i * 2 + 1) % 9], ARGS[(i * 4 + 2) % 9]) for i in range(9)] + [("St", "St", "St"), ("i32", "i32", "i32")]
     out.append(gcase({"family": "generic-3"}, td3, [("A", None), ("B", None), ("C", None)], 3, cover3))
+    # a second parameter that no emitted field mentions (skipped / overridden field, skipped variant): it stays
+    # a parameter of the declaration, with its default, and an argument of every reference
+    hidden = {
+        "skip": [Field("T", "v"), Field("Option<U>", "h", ["#[ts(skip)]"])],
+        "type-override": [Field("T", "v"), Field("Vec<U>", "h", ['#[ts(type = "string")]'])],
+        "as": [Field("T", "v"), Field("Vec<U>", "h", ['#[ts(as = "i32")]'])],
+        "first-hidden": [Field("Option<T>", "h", ["#[ts(skip)]"]), Field("U", "v")],
+    }
+    pairs6 = list(itertools.product(ARGS[:4], repeat=2))
+    for how, fields in hidden.items():
+        td = TypeDef("G", "struct", "named", fields, generics=["T", "U"], derives=TS_ONLY, vals=False)
+        out.append(gcase({"family": "generic-hidden-parameter", "how": how}, td, [("T", None), ("U", None)], 2, pairs6))
+        tdd = TypeDef("G", "struct", "named", fields, generics=["T", "U"], generics_decl="<T = i32, U = St>", generics_use="<T, U>", derives=TS_ONLY, vals=False)
+        out.append(gcase({"family": "generic-hidden-parameter", "how": how, "with_default": True}, tdd, [("T", "number"), ("U", "St")], 2, pairs6))
+    tde = TypeDef("G", "enum", variants=[Variant("A", "tuple", [Field("T")]), Variant("B", "tuple", [Field("U")], ["#[ts(skip)]"]), Variant("C", "unit")], generics=["T", "U"], derives=TS_ONLY, vals=False)
+    out.append(gcase({"family": "generic-hidden-parameter", "how": "skipped-variant"}, tde, [("T", None), ("U", None)], 2, pairs6))
     # parameter names that collide with TypeScript built-ins or declared types
     tdn = TypeDef("G", "struct", "named", [Field("Array", "a"), Field("Vec<St2>", "b")], generics=["Array", "St2"], derives=TS_ONLY, vals=False)
     out.append(gcase({"family": "generic-param-names"}, tdn, [("Array", None), ("St2", None)], 2, [("i32", "St"), ("St", "En")]))
